@@ -340,3 +340,91 @@ def rule_closure(ctx, rid):
         else:
             ctx.violation(rid, "closure/%s" % v, "Shape::%s is exported as %s without a closing point, but the importer removes the last point" % (v, tgt), "%s:%d" % (f.sp[0], f.sp[1]), "closure/%s" % v)
     ctx.floor(rid, "shape_kinds", n, 3)
+
+
+def rule_required_options(ctx, rid):
+    """sibling agreement on optional GDSII fields: what the importer insists on, the exporter always provides"""
+    from analysis import ctrl
+    F = ctx.F
+    ctx.rule(rid, "an optional GDSII field that the importer refuses to do without (None leads to an error) is set to Some(..) on every path of the exporter that builds that element: otherwise a library the exporter writes cannot be imported again")
+    # importer side: Option fields of the GDS element parameter consumed by ok_or / ok_or_else / unwrap / expect
+    required = {}   # (struct id, field) -> importer fn
+    for f in F.fns.values():
+        if not f.id.startswith(PFX) or not f.body or f.kind == "Closure" or len(f.inputs) != 2 or not re.search(IMP, f.inputs[0]["s"]):
+            continue
+        ty = f.inputs[1]
+        while ty.get("k") == "ref":
+            ty = ty["to"]
+        if ty.get("k") != "adt" or not ty["id"].startswith("gds21::data::Gds") or ty["id"] not in F.adts:
+            continue
+        b = Body(f)
+        opt_fields = {fl["name"] for v in F.adts[ty["id"]]["variants"] for fl in v["fields"] if fl["ty"].get("id", "").endswith("option::Option")}
+        for bi, t in b.calls():
+            n = callee_name(t) or ""
+            if not re.search(r"Option::<.*>::(ok_or|ok_or_else|unwrap|expect)$", n) or not t["args"]:
+                continue
+            for q in ctrl.slice_paths(b, t["args"][:1]):
+                fs = [x for x in ctrl._strip(q[1]) if not str(x).startswith("[")]
+                if q[0] == ("arg", 2) and len(fs) >= 1 and fs[0] in opt_fields:
+                    required[(ty["id"], fs[0])] = f
+    # ... or matched with a None arm that only reaches error returns (`if let Some(w) = x.width { .. } else { return fail }`)
+    for f in F.fns.values():
+        if not f.id.startswith(PFX) or not f.body or f.kind == "Closure" or len(f.inputs) != 2 or not re.search(IMP, f.inputs[0]["s"]):
+            continue
+        ty = f.inputs[1]
+        while ty.get("k") == "ref":
+            ty = ty["to"]
+        if ty.get("k") != "adt" or not ty["id"].startswith("gds21::data::Gds") or ty["id"] not in F.adts:
+            continue
+        b = Body(f)
+        opt_fields = {fl["name"] for v in F.adts[ty["id"]]["variants"] for fl in v["fields"] if fl["ty"].get("id", "").endswith("option::Option")}
+        okb, errb = od.ret_kind_blocks(b)
+        for bi, blk in enumerate(b.blocks):
+            if blk["term"]["k"] != "switch" or bi not in b.reachable or blk["cleanup"]:
+                continue
+            c = ctrl.classify_switch(b, bi)
+            if c[0] != "discr" or c[1][0] != ("arg", 2):
+                continue
+            fs = [x for x in ctrl._strip(c[1][1]) if not str(x).startswith("[")]
+            if len(fs) != 1 or fs[0] not in opt_fields:
+                continue
+            t = blk["term"]
+            arms_ = dict((v, tg) for v, tg in t["arms"])
+            none_t = arms_.get(0, t["else"] if 1 in arms_ else None)
+            if none_t is None or b.is_unreachable_blk(none_t):
+                continue
+            if not (od.reach(b, none_t, removed=errb) & okb):
+                required[(ty["id"], fs[0])] = f
+    ctx.count(rid + "_required_fields", sorted("%s.%s" % (k[0].split("::")[-1], k[1]) for k in required))
+    # exporter side: every construction of such a struct sets the field to Some(..)
+    n = 0
+    for f in F.fns.values():
+        if not f.id.startswith(PFX) or not f.body or f.kind == "Closure" or not f.inputs or not re.search(EXP, f.inputs[0]["s"]):
+            continue
+        tids = {st["rv"]["id"] for blk in f.body["blocks"] for st in blk["st"] if st["k"] == "assign" and st["rv"]["k"] == "agg" and st["rv"].get("id") in {k[0] for k in required}}
+        if not tids:
+            continue
+        w = Walker(f, max_visits=2, follow_errors=False, max_paths=4000, max_depth=24)
+        seen = {}
+
+        def on_stmt(path, bb, st, val, seen=seen, f=f):
+            if val and val[0] == "agg" and isinstance(val[1], str):
+                sid = val[1].rsplit("::", 1)[0]
+                if sid in tids and sid in F.adts:
+                    names = [fl["name"] for fl in F.adts[sid]["variants"][0]["fields"]]
+                    for (rs, rf) in required:
+                        if rs == sid and rf in names and names.index(rf) < len(val[2]):
+                            v = strip_calls(val[2][names.index(rf)])
+                            some = v and v[0] == "agg" and str(v[1]).endswith("Option::Some")
+                            seen.setdefault((sid, rf), []).append((bool(some), bb, v))
+        w.run(on_stmt=on_stmt)
+        for (sid, rf), obs in sorted(seen.items()):
+            n += 1
+            key = "%s/%s.%s" % (f.short, sid.split("::")[-1], rf)
+            bad = [o for o in obs if not o[0]]
+            if bad:
+                ctx.violation(rid, key, "%s can build a %s whose `%s` is not Some(..) (%s), but %s refuses such an element: the exported library cannot be imported again" % (
+                    f.short, sid.split("::")[-1], rf, "None" if bad[0][2] and str(bad[0][2][1]).endswith("None") else "a value that may be None", required[(sid, rf)].short), Body(f).site(bad[0][1]), key)
+            else:
+                ctx.ok(rid, key, "always Some(..) (%d constructions on %d paths)" % (len({o[1] for o in obs}), len(obs)))
+    ctx.floor(rid, "required_option_constructions", n, 1)
